@@ -322,6 +322,167 @@ static std::vector<std::vector<int>> repl_cols(int n)
    return v;
 }
 
+// ---- fill-in family: sparse matrices of dimension 20..60 whose factorisation creates fill (diagonal + k pseudo-random off-diagonals per row, integer LCG),
+// strictly diagonally dominant by rows - hence nonsingular and well conditioned by construction, no determinant needed - or exactly singular (one column is a copy
+// of another); three column replacements (again diagonally dominant) under the update type; after the load and after every replacement all 13 solve variants run on a
+// unit and on a dense right-hand side.  Oracle = the property itself: the exact residual of the returned doubles is at rounding level (1e-9 relative to |A||x| + |b|).
+struct FillSpec
+{
+   int n = 20, k = 3, utype = 0, mk = 0, singular = 0, seed = 0;
+   std::string str() const { char b[96]; snprintf(b, sizeof b, "F:%d:%d:%d:%d:%d:%d", n, k, utype, mk, singular, seed); return b; }
+   static bool parse(const std::string& s, FillSpec& f) { return sscanf(s.c_str(), "F:%d:%d:%d:%d:%d:%d", &f.n, &f.k, &f.utype, &f.mk, &f.singular, &f.seed) == 6; }
+};
+struct Lcg10
+{
+   uint64_t s;
+   explicit Lcg10(uint64_t seed) : s(seed * 0x9E3779B97F4A7C15ULL + 0x2545F4914F6CDD1DULL) { next(); next(); }
+   uint32_t next() { s = s * 6364136223846793005ULL + 1442695040888963407ULL; return (uint32_t)(s >> 33); }
+   int upto(int k) { return (int)(next() % (uint32_t)k); }
+};
+static std::string residual_check(const IMat& A, bool left, const std::vector<int>& b, const double* x, const char* what)
+{
+   int n = (int)A.size();
+   for(int i = 0; i < n; ++i) if(!std::isfinite(x[i])) return std::string(what) + ": non-finite entry";
+   for(int i = 0; i < n; ++i)
+   {
+      long double r = b[i], sc = fabsl((long double)b[i]);
+      for(int j = 0; j < n; ++j)
+      {
+         int a = left ? A[j][i] : A[i][j];
+         if(a) { r -= (long double)a * x[j]; sc += fabsl((long double)a * x[j]); }
+      }
+      if(fabsl(r) > 1e-9L * (1 + sc)) { std::ostringstream o; o << what << ": residual " << (double)r << " in component " << i << " (scale " << (double)sc << ")"; return o.str(); }
+   }
+   return "";
+}
+static uint64_t run_fill(const FillSpec& sp, Ctx& c)
+{
+   int n = sp.n;
+   Lcg10 g((uint64_t)sp.seed * 7919 + sp.n * 13 + sp.k);
+   auto mkcolumnwise = [&](IMat & M)
+   {
+      for(int i = 0; i < n; ++i)
+      {
+         for(int t = 0; t < sp.k; ++t) { int j = g.upto(n); if(j != i) M[i][j] = (g.upto(2) ? 1 : -1) * (1 + g.upto(2)); }
+      }
+   };
+   IMat M(n, std::vector<int>(n, 0));
+   mkcolumnwise(M);
+   // strict row dominance (also after the replacements below: a replacement column changes one entry per row, the diagonal margin covers it)
+   for(int i = 0; i < n; ++i) { int off = 0; for(int j = 0; j < n; ++j) if(j != i) off += abs(M[i][j]); M[i][i] = (g.upto(2) ? 1 : -1) * (off + 3 + g.upto(3)); }
+   if(sp.singular && n >= 2) { int a = g.upto(n - 1); for(int i = 0; i < n; ++i) M[i][n - 1] = M[i][a]; }
+   static const double MK[] = {0.01, 0.3, 0.99};
+   Factor f(M, sp.utype, MK[sp.mk % 3]);
+   auto st = f.load();
+   c.count("loads");
+   c.count("fill_matrices");
+   std::string cs = sp.str();
+   const char* ut = sp.utype ? "FT" : "ETA";
+   if(sp.singular)
+   {
+      c.count("singular_matrices");
+      if(st != SLinSolver<double>::SINGULAR) c.violation(std::string("singular-matrix-not-reported@") + ut + ",fill", cs, "load() returned status " + std::to_string((int)st) + " for a matrix with two equal columns");
+      return 3;
+   }
+   if(st != SLinSolver<double>::OK) { c.violation(std::string("nonsingular-matrix-rejected@") + ut + ",fill", cs, "load() returned status " + std::to_string((int)st) + " for a strictly diagonally dominant matrix"); return 5; }
+   std::vector<std::vector<int>> R;
+   { std::vector<int> e(n, 0); e[n / 3] = 1; R.push_back(e); }
+   { std::vector<int> d(n); for(int k = 0; k < n; ++k) d[k] = (k % 7) - 3; R.push_back(d); }
+   { std::vector<int> e(n, 0); e[0] = 2; e[n - 1] = -1; R.push_back(e); }
+   IMat cur = M;
+   uint64_t h = 1;
+   std::vector<Update> ups;
+   for(int stage = 0; stage <= 3; ++stage)
+   {
+      if(stage > 0)
+      {
+         // replacement of column p by a sparse column with entries of magnitude 1 off the diagonal and the old diagonal entry (dominance margin >= 3 keeps every row dominant)
+         Update u;
+         u.pos = g.upto(n);
+         u.col.assign(n, 0);
+         for(int t = 0; t < sp.k + 2 * stage; ++t) { int i = g.upto(n); if(i != u.pos) u.col[i] = g.upto(2) ? 1 : -1; }
+         for(int i = 0; i < n; ++i) if(i != u.pos && abs(u.col[i]) > abs(cur[i][u.pos]) + 1) u.col[i] = 0;
+         u.col[u.pos] = cur[u.pos][u.pos];
+         for(int i = 0; i < n; ++i) if(i != u.pos && cur[i][u.pos] != 0 && u.col[i] == 0 && g.upto(2)) u.col[i] = cur[i][u.pos];   // keep some old entries
+         // re-check dominance exactly; skip the replacement if some row would lose it
+         bool ok = true;
+         for(int i = 0; i < n && ok; ++i)
+         {
+            int off = 0;
+            for(int j = 0; j < n; ++j) if(j != i) off += abs(j == u.pos ? u.col[i] : cur[i][j]);
+            int dg = i == u.pos ? u.col[i] : cur[i][i];
+            if(abs(dg) <= off) ok = false;
+         }
+         if(!ok) { c.count("fill_replacements_skipped"); continue; }
+         u.mode = 0;
+         ups.push_back(u);
+         c.count("update_sequences");
+      }
+      for(int v = 0; v < NVARIANT; ++v)
+      {
+         set_sub(v);
+         bool prepares = (v >= 2 && v <= 6);
+         for(int k = 0; k < 2; ++k)
+         {
+            // the solves that prepare an update leave an update vector behind: reload and re-apply the chain before them and after them
+            if(prepares || (v == 7 && k == 0) || (stage > 0 && v == 0 && k == 0))
+            {
+               f.load();
+               cur = M;
+               Scenario sc;
+               sc.M = M; sc.ups = ups; sc.utype = sp.utype;
+               std::string why;
+               if(!apply_updates(f, sc, cur, why)) { c.violation(std::string("update-rejected@") + ut + ",fill", cs, why); return h; }
+            }
+            const std::vector<int>& b1 = R[k], &b2 = R[(k + 1) % 3], &b3 = R[(k + 2) % 3];
+            bool left = v >= 7;
+            DSVector sb1 = dsv(b1);
+            VectorReal vb1(n);
+            for(int i = 0; i < n; ++i) vb1[i] = b1[i];
+            SSVector x(n, g_tol), y(n, g_tol), z(n, g_tol), d(n, g_tol), e(n, g_tol);
+            VectorReal vx(n), vy(n), vz(n);
+            x.clear(); y.clear(); z.clear(); vx.clear(); vy.clear(); vz.clear();
+            d = dsv(b2);
+            e = dsv(b3);
+            int nout = 1;
+            const double* o1 = nullptr, *o2 = nullptr, *o3 = nullptr;
+            switch(v)
+            {
+            case 0: f.lu.solveRight(vx, vb1); o1 = vx.get_const_ptr(); break;
+            case 1: f.lu.solveRight(x, sb1); o1 = x.get_const_ptr(); break;
+            case 2: f.lu.solveRight4update(x, sb1); o1 = x.get_const_ptr(); break;
+            case 3: f.lu.solve2right4update(x, vy, sb1, d); o1 = x.get_const_ptr(); o2 = vy.get_const_ptr(); nout = 2; break;
+            case 4: f.lu.solve2right4update(x, y, sb1, d); o1 = x.get_const_ptr(); o2 = y.get_const_ptr(); nout = 2; break;
+            case 5: f.lu.solve3right4update(x, vy, vz, sb1, d, e); o1 = x.get_const_ptr(); o2 = vy.get_const_ptr(); o3 = vz.get_const_ptr(); nout = 3; break;
+            case 6: f.lu.solve3right4update(x, y, z, sb1, d, e); o1 = x.get_const_ptr(); o2 = y.get_const_ptr(); o3 = z.get_const_ptr(); nout = 3; break;
+            case 7: f.lu.solveLeft(vx, vb1); o1 = vx.get_const_ptr(); break;
+            case 8: f.lu.solveLeft(x, sb1); o1 = x.get_const_ptr(); break;
+            case 9: f.lu.solveLeft(x, vy, sb1, d); o1 = x.get_const_ptr(); o2 = vy.get_const_ptr(); nout = 2; break;
+            case 10: f.lu.solveLeft(x, y, sb1, d); o1 = x.get_const_ptr(); o2 = y.get_const_ptr(); nout = 2; break;
+            case 11: f.lu.solveLeft(x, vy, vz, sb1, d, e); o1 = x.get_const_ptr(); o2 = vy.get_const_ptr(); o3 = vz.get_const_ptr(); nout = 3; break;
+            case 12: f.lu.solveLeft(x, y, z, sb1, d, e); o1 = x.get_const_ptr(); o2 = y.get_const_ptr(); o3 = z.get_const_ptr(); nout = 3; break;
+            }
+            c.count("solves");
+            c.count("fill_solves");
+            const double* outs[3] = {o1, o2, o3};
+            const std::vector<int>* rhs[3] = {&b1, &b2, &b3};
+            for(int t = 0; t < nout; ++t)
+            {
+               std::string r = residual_check(cur, left, *rhs[t], outs[t], VARIANT[v]);
+               if(!r.empty())
+               {
+                  c.violation(std::string("wrong-solution:") + VARIANT[v] + "@" + ut + ",updates=" + std::to_string(ups.size()) + ",fill", cs + ";variant=" + std::to_string(v) + ";rhs=" + std::to_string(k), r + " output " + std::to_string(t));
+                  h = h * 31 + 7;
+                  break;
+               }
+            }
+         }
+      }
+   }
+   if(c.wantSample()) c.sample("{\"fill_matrix\":" + jstr(cs) + ",\"replacements\":" + std::to_string(ups.size()) + "}");
+   return h;
+}
+
 // structured larger matrices: permuted identity with a dense bump column, permuted lower triangular
 static IMat structured(int kind, int n, int p)
 {
@@ -360,8 +521,11 @@ int main(int argc, char** argv)
       if(p == std::string::npos) { printf("REPLAY-ERROR no case\n"); return 2; }
       p += 9;
       std::string cs = doc.substr(p, doc.find('"', p) - p);
-      Scenario sc = Scenario::parse(cs);
       mallopt(M_PERTURB, 85);
+      FillSpec fsp;
+      if(cs.compare(0, 2, "F:") == 0 && FillSpec::parse(cs.substr(0, cs.find(';')), fsp))
+         return replay_case([&](Ctx & c) { run_fill(fsp, c); });
+      Scenario sc = Scenario::parse(cs);
       return replay_case([&](Ctx & c) { run_scenario(sc, c); });
    }
    bool thorough = args.tier == "thorough";
@@ -462,6 +626,25 @@ int main(int argc, char** argv)
          }
          return h;
       }, [&](uint64_t idx, uint64_t) { const MP& s = list[idx]; return "memory-pressure n=" + std::to_string(s.n) + " utype=" + std::to_string(s.ut) + " k1=" + std::to_string(s.k1) + " k2=" + std::to_string(s.k2) + " shift=" + std::to_string(s.shift); }, omp, sfx);
+   }
+   {
+      // phase 6: fill-in family, dimension 20..60: complete grid n(5) x k(3) x update type(2) x threshold(3) x {nonsingular, singular} x seeds
+      static const int NS[] = {20, 30, 40, 50, 60}, KS[] = {3, 5, 8};
+      const int seeds = thorough ? 10 : 2;
+      auto specOf = [=](uint64_t idx)
+      {
+         FillSpec f;
+         f.singular = idx % 2; idx /= 2;
+         f.mk = idx % 3; idx /= 3;
+         f.utype = idx % 2; idx /= 2;
+         f.k = KS[idx % 3]; idx /= 3;
+         f.n = NS[idx % 5]; idx /= 5;
+         f.seed = (int)idx;
+         return f;
+      };
+      rep.phase("fill-in family: diagonally dominant sparse matrices of dimension 20..60 with 3 column replacements", (uint64_t)2 * 3 * 2 * 3 * 5 * seeds, [&](uint64_t idx, int, Ctx & c) { return run_fill(specOf(idx), c); },
+      [&](uint64_t idx, uint64_t) { return specOf(idx).str(); }, o, sfx);
+      rep.extra["fill_grid"] = jstr("n in {20,30,40,50,60}; k in {3,5,8} off-diagonals per row; ETA / Forrest-Tomlin; Markowitz threshold 0.01 / 0.3 / 0.99; nonsingular (strictly row dominant) and singular (two equal columns); seeds 0.." + std::to_string(seeds - 1));
    }
    // phase 1: all 2x2 and 3x3 matrices over {-1,0,1,2}, no updates, both update types, all thresholds
    for(int n = 2; n <= 3; ++n)
